@@ -19,8 +19,8 @@ package main
 // incomplete by design: what it cannot prove goes to stage 3 or is a violation.
 
 import (
-	"go/constant"
 	"fmt"
+	"go/constant"
 	"go/token"
 	"go/types"
 	"math/big"
@@ -67,20 +67,20 @@ func (a linExpr) String() string {
 }
 
 type prover struct {
-	fn         *ssa.Function
-	atoms      map[string]string    // atom key -> readable
-	loads      map[string]*ssa.UnOp // canonical load per key
-	facts      []linExpr            // each: expr >= 0
-	seenV      map[ssa.Value]bool
-	notes      []string
-	fset       *token.FileSet
-	depth      int
-	bounds     map[string]bool
-	subst      map[ssa.Value]ssa.Value // parameter → actual argument (caller-side discharge)
-	pendingNE  [][2]linExpr
-	idxPending []ssa.Value
-	inRefresh  bool
-	phiDepth   int
+	fn          *ssa.Function
+	atoms       map[string]string    // atom key -> readable
+	loads       map[string]*ssa.UnOp // canonical load per key
+	facts       []linExpr            // each: expr >= 0
+	seenV       map[ssa.Value]bool
+	notes       []string
+	fset        *token.FileSet
+	depth       int
+	bounds      map[string]bool
+	subst       map[ssa.Value]ssa.Value // parameter → actual argument (caller-side discharge)
+	pendingNE   [][2]linExpr
+	idxPending  []ssa.Value
+	inRefresh   bool
+	phiDepth    int
 	inWrapCheck bool
 }
 
